@@ -89,6 +89,9 @@ let () =
     String.concat " " (List.map (fun i ->
       if f.(i) = "-" then "-"
       else (match !toks with t :: r -> toks := r; t | [] -> "MODEL-SHORT")) idx));
+  (* the operations are pure functions of their arguments on the model (no state outside the arguments exists there), so
+     a probe run after an unrelated refused call gives what it gives alone: the specification side of "interleave" *)
+  register "interleave" (fun _ -> "OK");
   register "threads" (fun f ->
     let n = int_of_string f.(1) and seed = int_of_string f.(2) in
     match threads_check (n_of_int n) (n_of_int seed) (n_of_int 6) with
